@@ -21,6 +21,10 @@ package data_test
 //           (the way `restic stats` uses it)
 //   stream  data.StreamTrees with checker-style callbacks: skip = "seen"
 //           set, process records and returns nil (so failed loads do not abort)
+//   check   the real checker: the shape is stored in a real repository (mem
+//           store, one snapshot per root, plus an unreferenced tree and blob);
+//           checker.New(repo with gated LoadBlob, trackUnused).Structure, then
+//           UnusedBlobs — the traversal `restic check` performs
 //   walk    walker.Walk (sequential; error answers only) — every path of the
 //           unfolded DAG in tree order
 //
@@ -38,6 +42,13 @@ package data_test
 //     must ⊆ got ⊆ may), never for another tree, with err != nil exactly for
 //     the failed loads, and with exactly the model's entries in order; skip is
 //     always called from one goroutine (documented); progress == #roots.
+//   * check: every reachable tree loaded exactly once, a TreeError is reported
+//     exactly for the reachable trees that are missing / undecodable / failed to
+//     load / contain a dir entry without (or with the null) subtree, the blobs
+//     NOT listed by UnusedBlobs are exactly the reachable ones, progress ==
+//     #roots.  A panic of the checker in a StreamTrees worker cannot be
+//     recovered, so the half-decodable shape is first probed in a child process
+//     (TestVerifProbe_C42); see findings/C42.md.
 //   * walk: the sequence of ProcessNode/LeaveDir calls equals the model's
 //     depth-first unfolding up to the first failing load, whose error is what
 //     Walk returns.
@@ -1172,7 +1183,7 @@ func verifC42Probe(shape string) string {
 func TestVerif_C42(t *testing.T) {
 	r := vh.Start(t, "C42")
 	defer r.Finish()
-	r.Rule("GATE at the Loader: for every forged tree DAG (12 shapes, <= 7 trees), mode (find, find2, stream, walk) and connection count, ALL completion orders of the concurrently outstanding LoadBlob calls and ALL ok/err answer assignments (no deviation bound: the search is complete; FIFO policy only fixes the enumeration order). non-trivial = an execution in which at least two loads were outstanding at the same scheduler step or a load was answered with an injected error. states = distinct complete schedules.")
+	r.Rule("GATE at the Loader: for every forged tree DAG (12 shapes, <= 7 trees), mode (find, find2, stream, check, walk) and connection count, ALL completion orders of the concurrently outstanding LoadBlob calls and ALL ok/err answer assignments (no deviation bound: the search is complete; FIFO policy only fixes the enumeration order; only the check mode of the quick tier is limited to 2 deviations from oldest-first/ok). non-trivial = an execution in which at least two loads were outstanding at the same scheduler step or a load was answered with an injected error. states = distinct complete schedules.")
 	r.Assume("the Loader is the only interaction with the repository; LookupBlobSize is pure", "goroutine interleaving between two loader events is the Go runtime's choice (GOMAXPROCS=1); filterTrees' select never has two ready cases at quiescence because one load is released per scheduler step")
 	// Connections() decides the size of the worker pool: conns + GOMAXPROCS(=1) normal workers + 1 huge-tree worker.
 	connsList := vh.Pick(r, []uint{0}, []uint{1, 2, 3, 5}) // 0 = the shape's own value (1 or 2)
@@ -1187,7 +1198,7 @@ func TestVerif_C42(t *testing.T) {
 			r.Eval(1)
 			r.Violation("probe|check|partial", "C42|check-panic|half-decodable-tree",
 				"the checker's tree traversal (checker.Structure = StreamTrees with the checker's callbacks, as `restic check` runs it) dies with an unrecovered panic on a repository that contains a tree whose JSON becomes undecodable after some valid entries (shape \"partial\", tree P):\n"+checkerDies,
-				map[string]any{"shape": "partial", "tree_P": string(verifC42Build(&shapes[7]).raw["P"])})
+				map[string]any{"shape": "partial", "tree_P": `{"nodes":[<file f>,<dir k2>,{"name":17,"type":"file"}]}`})
 		}
 		r.Cap("check mode is skipped for the shapes with a half-decodable tree (partial, allbad): the checker panics there (reported as a violation)")
 	}
@@ -1222,11 +1233,16 @@ func TestVerif_C42(t *testing.T) {
 					base = bases[sh.name]
 				}
 				sc, check := verifC42Scenario(r, mode, m, name, base)
-				st := vx.Explore(r, t, name, sc, xplore.Options{Policy: xplore.FIFO, Bound: -1, MaxSteps: 300}, check)
+				bound := -1
+				if mode == "check" {
+					// every execution opens the repository (~20 ms): deviation bound 2 in the quick tier, complete in thorough
+					bound = vh.Pick(r, 2, -1)
+				}
+				st := vx.Explore(r, t, name, sc, xplore.Options{Policy: xplore.FIFO, Bound: bound, MaxSteps: 300}, check)
 				r.Count("execs "+name, st.Execs)
 			}
 		}
 	}
-	r.Extra("deviation_bound", "none (complete)")
+	r.Extra("deviation_bound", vh.Pick(r, "none (complete); check mode: 2", "none (complete)"))
 	r.Extra("shapes", fmt.Sprint(len(shapes)))
 }
